@@ -11,6 +11,7 @@ import IocProofs.Lemmas.Placeholder
 import IocProofs.Lemmas.PlaceholderLayers
 import IocProofs.Lemmas.SemStages
 import IocProofs.Lemmas.TagRound
+import IocProofs.Lemmas.SemConfDefault
 namespace Ioc.C16
 open Ioc Ioc.Placeholder
 
@@ -472,5 +473,19 @@ example : process cacheCfg (ofString "#{60*60}") = .value (ofString "#{60*60}") 
 example : Ioc.Tag.WFpre Ioc.Tag.cComma Ioc.Tag.isLB Ioc.Tag.isRB (ofString "#{'cache-'+'eu'}") 0 = true := by decide
 example : processText cacheCfg (ofString "${cache.ttl},validate=min=1") = some (ofString "${cache.ttl}", .value (ofString "#{60*60}")) := by
   decide +kernel
+
+/-- configure.Default / NewConfigure / the setters, regenerated (interpretation Ioc.SemConfDefault): the default configure has
+    ONE loader, the command-line loader over os.Args, and its binder is the viper binder for yaml ITSELF (no layer between
+    the configure and the binder: what `SetConfig` merges and `Set` writes is what `Get` reads); SetLoaders replaces,
+    AddLoaders appends in the order given, SetBinder replaces the binder -/
+theorem C16_code_configure_Default (w : Sem.CfgObj) (ls : List Go.Val) (b : Go.Val) :
+    Go.run Sem.cdPrims Progs.cfg_Default [] w =
+      some (.ref 0 180, ⟨[.tuple [.str "ArgsLoader", .str "os.Args"]], .tuple [.str "ViperBinder", .str "yaml"]⟩) ∧
+    Go.run Sem.cdPrims Progs.cfg_NewConfigure [] w = some (.ref 0 180, ⟨[], .nil⟩) ∧
+    Go.run Sem.cdPrims Progs.cfg_SetLoaders [.list ls] w = some (.tuple [], { w with loaders := ls }) ∧
+    Go.run Sem.cdPrims Progs.cfg_AddLoaders [.list ls] w = some (.tuple [], { w with loaders := w.loaders ++ ls }) ∧
+    Go.run Sem.cdPrims Progs.cfg_SetBinder [b] w = some (.tuple [], { w with binder := b }) :=
+  ⟨Sem.cfgDefault_sem w, Sem.newConfigure_sem w, (Sem.cfgSetters_sem w ls b).1, (Sem.cfgSetters_sem w ls b).2.1,
+   (Sem.cfgSetters_sem w ls b).2.2⟩
 
 end Ioc.C16
